@@ -192,9 +192,13 @@ func GenConfig(t *rapid.T, f Focus) Config {
 	}
 	if f.foreign && pct(t, "exchange_service", f.ExchangePct) {
 		c.ExchangeRate = "1"
-		if f.Prop != "C07" && pct(t, "rate_not_one", 40) {
-			// C07 states the fee in terms of the published price alone: only the rate 1 keeps it literally true
-			c.ExchangeRate = pick(t, "rate", []string{"2", "0.5", "3"})
+		if pct(t, "rate_not_one", 40) {
+			rates := []string{"2", "0.5", "3", "unavailable", "0", "malformed", "0.000001"}
+			if f.Prop == "C07" {
+				// C07 states the fee in terms of the published price alone: only the rate 1 keeps it literally true
+				rates = []string{"unavailable", "malformed"}
+			}
+			c.ExchangeRate = pick(t, "rate", rates)
 		}
 	}
 	if f.Prop == "C09" && pct(t, "reactive_module", 30) {
